@@ -206,7 +206,10 @@ def hSched : Handler := fun impl => do
       (if imax ≤ 1 then [] else ["bad:C12:more-than-one-origin-fetch-in-flight"]) ++
       (if ivs.all Spec.C12.viewComplete then [] else ["bad:C12:a-client-was-not-served-the-complete-response"])
      else []) ++
-    (if ivs.length = n ∧ ¬ Spec.C12.holds13 faults ivs then ["bad:C13:partial-data-served-or-request-stuck"] else [])
+    (if ivs.length = n ∧ ¬ Spec.C12.holds13 faults ivs then ["bad:C13:partial-data-served-or-request-stuck"] else []) ++
+    -- C08 in schedules: the scripted origin grants no stale-if-error / stale-while-revalidate, so
+    -- nobody may be handed an expired entry (view token C<v>s = served with richie-edge-cache: stale)
+    (if ivs.any (fun v => v.startsWith "C" && v.endsWith "s") then ["bad:C08:expired-entry-served-without-revalidation-or-allowance"] else [])
   let oracle := if ivs.length ≠ n then "na" else if bad.isEmpty then "ok" else ",".intercalate bad
   let label := s!"n{n}:" ++ (if noFault then "nofault" else "fault") ++
     (if sEnd.fetches > 1 then ":refetch" else "") ++ (if (List.range n).any (fun i => toks.contains s!"T{i}") then ":rewait" else "")
